@@ -95,7 +95,10 @@ struct Registry {
 static REG: OnceLock<Registry> = OnceLock::new();
 static LOG: Mutex<Vec<String>> = Mutex::new(Vec::new());
 static ARGS: [BenchArgs; N_ARGS] = [const { BenchArgs::new() }; N_ARGS];
-static CALLS: [[AtomicU64; 72]; 256] = [const { [const { AtomicU64::new(0) }; 72] }; 256];
+/// One counter per (benchmark, thread), each on a cache line of its own (billions of calls from 16 threads must not share lines).
+#[repr(align(64))]
+struct Padded(AtomicU64);
+static CALLS: [[Padded; 72]; 256] = [const { [const { Padded(AtomicU64::new(0)) }; 72] }; 256];
 static RUN_SEQ: AtomicU64 = AtomicU64::new(0);
 
 thread_local! {
@@ -240,7 +243,7 @@ fn kidx() -> usize {
 #[inline]
 fn body_call(bid: usize) {
     let k = kidx();
-    CALLS[bid][k].fetch_add(1, Relaxed);
+    CALLS[bid][k].0.fetch_add(1, Relaxed);
     let beh = &reg().behaviours[bid];
     let run = RUN_SEQ.load(Relaxed);
     let j = ORD
@@ -282,7 +285,7 @@ fn run_body(bid: usize, label: &str, bencher: Bencher) {
     let beh = &reg().behaviours[bid];
     RUN_SEQ.fetch_add(1, SeqCst);
     for c in CALLS[bid].iter() {
-        c.store(0, SeqCst);
+        c.0.store(0, SeqCst);
     }
     log_line(format!("enter {bid} {label}"));
     let mut bencher = bencher;
@@ -313,7 +316,7 @@ fn run_body(bid: usize, label: &str, bencher: Bencher) {
         .iter()
         .enumerate()
         .filter_map(|(k, c)| {
-            let v = c.load(SeqCst);
+            let v = c.0.load(SeqCst);
             (v > 0).then(|| format!("{k}:{v}"))
         })
         .collect();
